@@ -3,5 +3,7 @@
 set -e
 cd "$(dirname "$0")/.."
 bin/build.sh cppcheck
+# ThreadSanitizer build used by C16 (built on demand by the check as well; a failure here is not fatal for the other checks)
+bin/build_tsan.sh || echo "warning: ThreadSanitizer build failed, C16 will report an infrastructure error"
 java -cp /opt/veriftools/tla/tla2tools.jar:/opt/veriftools/tla/CommunityModules-deps.jar tlc2.TLC -h >/dev/null 2>&1 || true
 echo "setup ok"
